@@ -9,6 +9,8 @@ import (
 	"math/big"
 	"sort"
 	"strings"
+	"sync"
+	"time"
 
 	"github.com/Factom-Asset-Tokens/factom"
 	"github.com/pegnet/pegnetd/fat/fat2"
@@ -18,6 +20,7 @@ import (
 	"verif/lab/harness"
 	"verif/lab/orch"
 	"verif/lab/rules"
+	"verif/lab/vdriver"
 )
 
 // The monitored run shared by the one-step properties (C03, C04, C07, C11–C17): the real daemon
@@ -732,11 +735,44 @@ func modelRun(j *orch.Job, r *orch.Result) error {
 	if p.Upto > 0 {
 		tip = e.Pegnet + uint32(p.Upto)
 	}
-	n, err := harness.StartNode(harness.NodeConfig{DBPath: j.Dir + "/db"}, m.W.Chain)
+	retries := containsStr(p.Features, "retries")
+	n, err := harness.StartNode(harness.NodeConfig{DBPath: j.Dir + "/db", Wrap: retries}, m.W.Chain)
 	if err != nil {
 		return err
 	}
 	defer n.Stop()
+	if retries {
+		// every few blocks the last statement before COMMIT (the sync-height update) fails once: the block is
+		// rolled back and applied again by the same process. Whatever the daemon keeps in memory must not make
+		// the second attempt differ from a first one - every effect of the block still happens exactly once.
+		var mu sync.Mutex
+		failed := map[uint32]bool{}
+		vdriver.Set(&vdriver.Hooks{Decide: func(ev *vdriver.Event) (vdriver.Action, time.Duration) {
+			if !ev.InTx || ev.Kind != vdriver.KExec || !strings.HasPrefix(ev.SQL, "REPLACE INTO pn_metadata") || len(ev.Args) != 2 {
+				return vdriver.Proceed, 0
+			}
+			var bs struct{ Synced uint32 }
+			var raw []byte
+			switch x := ev.Args[1].(type) {
+			case []byte:
+				raw = x
+			case string:
+				raw = []byte(x)
+			}
+			if json.Unmarshal(raw, &bs) != nil || bs.Synced == 0 {
+				return vdriver.Proceed, 0
+			}
+			mu.Lock()
+			defer mu.Unlock()
+			if (int64(bs.Synced)+p.Seed)%4 == 0 && !failed[bs.Synced] {
+				failed[bs.Synced] = true
+				r.Count("blocks_applied_twice_after_a_late_failure", 1)
+				return vdriver.FailInstead, 0
+			}
+			return vdriver.Proceed, 0
+		}})
+		defer vdriver.Set(nil)
+	}
 	n.Run()
 	mon, err := NewMonitor(e, p.Window, n.RO, r, p.Seed)
 	if err != nil {
